@@ -9,7 +9,15 @@ base = sys.argv[2] if len(sys.argv) > 2 else "/tmp/wt"
 wt = "%s/%s" % (base, pid)
 out = "%s/%s_out" % (base, pid)
 focus = ""
-if len(sys.argv) > 3:
+STEER = {
+    "concurrency": "FOCUS: the break should only manifest when two things happen at the same time (two associations, two user threads, a peer "
+                   "event racing a local call, a handler that is still running) - never for purely sequential use.\n\n",
+    "config": "FOCUS: the break should only manifest under a non-default but documented configuration option or API usage pattern (a "
+              "pynetdicom._config flag, an optional argument, re-assigning a setting at run time, an unusual-but-legal value) - never with the defaults.\n\n",
+}
+if len(sys.argv) > 3 and sys.argv[3] in STEER:
+    focus = STEER[sys.argv[3]]
+elif len(sys.argv) > 3:
     m = d['anchors']['mechanism'][int(sys.argv[3])]
     focus = ("FOCUS: of the mechanisms listed above, make your change in or directly around this one: %s (%s). "
              "Do not put the change anywhere else.\n\n" % (m['name'], m['where']))
